@@ -37,7 +37,9 @@ MANIFEST = {
 SEGS = ["a", "..", ".", "", "x" * 250]
 DISGUISED = ["..\x00", "\x00..", ".\x00.", ".\x00",
              # compatibility characters that Unicode normalisation (NFKC/NFKD) folds into '.', '..' and '/'
-             "\u2025", "\u2024\u2024", "\uff0e\uff0e", "\u2024.", "a\uff0f..\uff0f..\uff0fb"]
+             "\u2025", "\u2024\u2024", "\uff0e\uff0e", "\u2024.", "a\uff0f..\uff0f..\uff0fb",
+             # dot segments padded with characters a later normalisation step may strip (blank, tab, newline, no-break / ideographic space)
+             " ..", ".. ", "\t..", "..\n", " . ", "\u00a0..", "..\u3000"]
 SIBLINGS = ["out2", "out.bak", "ou"]          # names sharing a CHARACTER prefix with the output directory's name "out"
 ALLSEGS = SEGS + DISGUISED + SIBLINGS
 MNAMES = ["m", "../e", "a/b", "..", "x" * 300, "/abs"]
@@ -77,25 +79,42 @@ def class_names():
     return out
 
 
+FORMS = [None, "raw", "png"]      # --format of `androguard decompile`: extra per-method graph files next to the .ag files
+
+
 def cases(ctx):
+    nplain = len(SEGS)
     for segs in class_names():
-        for mi in range(len(MNAMES)):
-            yield (list(segs), mi, 0)
+        # names of 2+ segments that contain a disguised / sibling segment: two method names in quick (the method-name dimension
+        # is crossed completely with the plain alphabet and with all one-segment names), all six in thorough
+        reduced = (not ctx.thorough) and len(segs) > 1 and any(x >= nplain for x in segs)
+        for mi in ((0, 1) if reduced else range(len(MNAMES))):
+            yield (list(segs), mi, 0, 0)
+    # the per-method graph export (form != None) writes one more file per method through its own path expression
+    for segs in class_names():
+        for mi in (0, 1):
+            yield (list(segs), mi, 0, 1)
+        if len(segs) == 1:
+            for mi in range(len(MNAMES)):
+                yield (list(segs), mi, 0, 2)
     # '..' inside parameter / return types (they appear in the method's short string used as file name)
     for segs in ([0], [0, 0]):
         for mi in (0, 2):
-            yield (segs, mi, 1)
+            yield (segs, mi, 1, 0)
+            yield (segs, mi, 1, 1)
 
 
 def features(case):
-    segs, mi, ptype = case
+    segs, mi, ptype = case[:3]
     f = []
     names = [ALLSEGS[i] for i in segs]
     if ".." in names:
         f.append("class:dotdot")
     if any("\x00" in n for n in names):
         f.append("class:nul-disguised-dots")
-    if any(ord(ch) > 0x2000 for n in names for ch in n):
+    if any(n != n.strip() and n.strip() in (".", "..") for n in names):
+        f.append("class:whitespace-padded-dots")
+    elif any(ord(ch) > 0x2000 for n in names for ch in n):
         f.append("class:unicode-compat-dots")
     if any(n in SIBLINGS for n in names):
         f.append("class:sibling-prefix")
@@ -108,12 +127,14 @@ def features(case):
     f.append("method:" + {0: "plain", 1: "dotdot-slash", 2: "slash", 3: "dotdot", 4: "long", 5: "leading-slash"}[mi])
     if ptype:
         f.append("param:dotdot-type")
+    if len(case) > 3 and case[3]:
+        f.append("graph-format:" + FORMS[case[3]])
     return f
 
 
 def build(case):
     from gen import dalvik as D, dexgen as G
-    segs, mi, ptype = case
+    segs, mi, ptype = case[:3]
     cname = "L" + "/".join(ALLSEGS[i] for i in segs) + ";"
     params = ("L../../p/Q;", "I") if ptype else ("I",)
     ret = "L../r/R;" if ptype else "V"
@@ -152,7 +173,7 @@ def judge(case):
         dx.create_xref()
         try:
             with contextlib.redirect_stdout(io.StringIO()):
-                climain.export_apps_to_format("in.dex", _Sess(vm, dx), out, None, False, None, None)
+                climain.export_apps_to_format("in.dex", _Sess(vm, dx), out, None, False, None, FORMS[case[3]] if len(case) > 3 else None)
         except Exception as e:      # noqa  (exceptions are allowed)
             exc = "%s: %s" % (type(e).__name__, str(e)[:120])
         outside = []
@@ -168,7 +189,7 @@ def judge(case):
         if outside:
             fs = features(case)
             # input-side key: the most specific hostile component (class '..' dominates, then the method-name kind)
-            dom = ([f for f in fs if f == "class:unicode-compat-dots"] or [f for f in fs if f == "class:sibling-prefix"] or [f for f in fs if f == "class:nul-disguised-dots"] or [f for f in fs if f == "class:dotdot"] or [f for f in fs if f.startswith("method:") and f != "method:plain"]
+            dom = ([f for f in fs if f == "class:whitespace-padded-dots"] or [f for f in fs if f == "class:unicode-compat-dots"] or [f for f in fs if f == "class:sibling-prefix"] or [f for f in fs if f == "class:nul-disguised-dots"] or [f for f in fs if f == "class:dotdot"] or [f for f in fs if f.startswith("method:") and f != "method:plain"]
                    or [f for f in fs if f.startswith("param:")] or [f for f in fs if f.startswith("class:")] or ["plain"])[0]
             return ("escape:" + dom,
                     "class %r method %r: created outside the output directory %s: %s (exception: %s)"
@@ -187,8 +208,9 @@ def shards(ctx):
 
 
 def space(ctx):
-    return {"segments": ["a", "..", ".", "", "x*250"], "disguised_segments": ["..\\0", "\\0..", ".\\0.", ".\\0"], "sibling_prefix_segments": SIBLINGS, "max_segments": 3, "climbing_chains": "3..6 leading '..' behind {nothing, empty, '.', 'a'}, with and without a final name", "class_names": len(class_names()),
-            "method_names": [m[:12] for m in MNAMES], "exports": sum(1 for _ in cases(ctx)), "output_nesting": 8}
+    return {"segments": ["a", "..", ".", "", "x*250"], "disguised_segments": [ascii(d)[1:-1] for d in DISGUISED], "sibling_prefix_segments": SIBLINGS, "max_segments": 3, "climbing_chains": "3..6 leading '..' behind {nothing, empty, '.', 'a'}, with and without a final name", "class_names": len(class_names()),
+            "method_names": [m[:12] for m in MNAMES], "exports": sum(1 for _ in cases(ctx)), "output_nesting": 8,
+            "graph_formats": "none for every case; 'raw' for every class name x 2 method names; 'png' for one-segment names x 6 method names"}
 
 
 def run_shard(ctx, shard):
@@ -211,7 +233,7 @@ def run_shard(ctx, shard):
 
 def replay(ctx, w):
     c = w["case"]
-    r, _, _ = judge((list(c[0]), c[1], c[2]))
+    r, _, _ = judge((list(c[0]), c[1], c[2], c[3] if len(c) > 3 else 0))
     return r[1] if r else None
 
 
